@@ -21,7 +21,7 @@ import re
 from typing import Any, Dict, List, Optional, Tuple
 
 import vlib
-from c11_lib import builtin_exec, gen, impl
+from c11_lib import builtin_exec, gen, gen2, impl
 
 ID = "C11"
 OWN_LEANCHECKER = True  # this module runs leanchecker itself in the thorough tier
@@ -196,13 +196,21 @@ def gen_table(backend: str) -> List[List[Any]]:
             if h == "refuse" or (isinstance(h, dict) and ("spec" in h or "arityonly" in h))]
 
 
-_LEAF_TEXT: Dict[str, Dict[str, str]] = {}
+_LEAF_TEXT: Dict[Any, Dict[str, str]] = {}
 J = "@J@"
 
 
-def leaf_texts(backend: str) -> Dict[str, str]:
+def chain_of(case: Dict[str, Any]) -> Tuple[str, ...]:
+    return tuple(case["recv"]["chain"]) if case.get("recv") else ()
+
+
+def leaf_texts(backend: str, chain: Tuple[str, ...] = ()) -> Dict[str, str]:
     """C++ text the translator itself emits for each injection-free argument expression, measured by translating
-    them alone as columns; the loop variable is replaced by a placeholder."""
+    them alone as columns; the loop variable is replaced by a placeholder.  With a receiver chain the expressions are
+    measured where the call sites will stand: as terms of the Aggregate lambda whose parameter `j` stands for
+    `j0.m1().m2()…` (so `j` itself is the receiver's text)."""
+    if chain:
+        return _chain_leaf_texts(backend, chain)
     if backend in _LEAF_TEXT:
         return _LEAF_TEXT[backend]
     leaves = [l for l in (gen.ATLAS_LEAVES if backend == "atlas" else gen.CMS_LEAVES) if l != "j"]
@@ -225,6 +233,35 @@ def leaf_texts(backend: str) -> Dict[str, str]:
                 raise vlib.InternalError("cannot isolate the text of j.globalTrack(): " + t)
         out[l] = t
     _LEAF_TEXT[backend] = out
+    return out
+
+
+def _chain_leaf_texts(backend: str, chain: Tuple[str, ...]) -> Dict[str, str]:
+    key = (backend, chain)
+    if key in _LEAF_TEXT:
+        return _LEAF_TEXT[key]
+    leaves = [l for l in gen2.RECV_LEAVES if l != "j"]
+    r = impl.translate_query(backend, [], "lambda acc, j: acc + " + " + ".join(leaves), recv_chain=list(chain))
+    if "text" not in r:
+        raise vlib.InternalError(f"cannot measure leaf texts on {backend} behind the receiver chain {chain}: {r}")
+    try:
+        b = impl.parse_body(r["text"], r["marker"])
+        terms = impl.agg_columns(b)
+    except Exception as e:
+        raise vlib.InternalError(f"leaf measurement on {backend} behind {chain}: {type(e).__name__}: {e}")
+    if len(terms) != len(leaves):
+        raise vlib.InternalError(f"leaf measurement on {backend} behind {chain}: {len(terms)} terms for {len(leaves)} leaves")
+    out = {}
+    for l, t in zip(leaves, terms):
+        out[l] = re.sub(r"\b%s\b" % re.escape(b["loop_var"]), J, t)
+    t = out["j.pt()"]
+    for suf in ("->pt()", ".pt()"):
+        if t.endswith(suf):
+            out["j"] = t[: -len(suf)]
+            break
+    else:
+        raise vlib.InternalError(f"cannot isolate the receiver's text behind {chain}: {t}")
+    _LEAF_TEXT[key] = out
     return out
 
 
@@ -317,6 +354,8 @@ def count_sites(t: Dict[str, Any]) -> int:
 def select_src(case: Dict[str, Any]) -> str:
     tab = in_force(case)
     cols = [tree_src(c) + WRAP_SRC[wrap_of(c, tab)] for c in case["cols"]]
+    if case.get("recv"):  # the call sites are the terms the Aggregate lambda adds up; its parameter j is the receiver
+        return "lambda acc, j: acc + " + " + ".join(cols)
     return "lambda j: " + (cols[0] if len(cols) == 1 else "(" + ", ".join(cols) + ")")
 
 
@@ -326,11 +365,14 @@ def observe_query(case: Dict[str, Any]) -> Tuple[Dict[str, Any], str]:
         import func_adl_xAOD.common.cpp_vars as cpp_vars
 
         cpp_vars.unique_var_index = int(case["reset_counter"])
-    r = impl.translate_query(case["backend"], case["specs"], select_src(case), case.get("second_select"), case.get("first_stage"))
+    r = impl.translate_query(case["backend"], case["specs"], select_src(case), case.get("second_select"), case.get("first_stage"),
+                             recv_chain=list(chain_of(case)) or None)
     if "text" not in r:
         return {"err": r["err"], "msg": r.get("msg", "")}, "i_obj0"
     try:
         b = impl.parse_body(r["text"], r["marker"])
+        if case.get("recv"):
+            b["cols"] = impl.agg_columns(b)
     except Exception as e:  # the generated text has a shape the parser does not know: report, do not guess
         return {"unparsed": f"{type(e).__name__}: {e}"}, "i_obj0"
     tab = in_force(case)
@@ -360,12 +402,12 @@ def observe_query(case: Dict[str, Any]) -> Tuple[Dict[str, Any], str]:
 
 def query_request(case: Dict[str, Any], obs: Optional[Dict[str, Any]], loop_var: str) -> Dict[str, Any]:
     tab = in_force(case)
-    texts = leaf_texts(case["backend"])
+    texts = leaf_texts(case["backend"], chain_of(case))
     cols = [tree_expr(c, texts, loop_var, set(tab)) for c in case["cols"]]
     allt = [json.dumps(case, ensure_ascii=False)]
     re_w, id_w = impl.word_classes(allt)
     req = {"op": "query", "reW": re_w, "idW": id_w, "builtins": driver_table(case["backend"]), "specs": list(reversed(case["specs"])),
-           "env": [["j", loop_var]], "cols": cols, "start": 2}
+           "env": [["j", texts["j"].replace(J, loop_var)]], "cols": cols, "start": 2}
     if obs is not None and "unparsed" not in obs:
         req["obs"] = {k: v for k, v in obs.items() if k not in ("bad", "msg", "access")}
     return req
@@ -393,6 +435,7 @@ HOW = {
     "subst": "from func_adl_xAOD.common.cpp_ast import _replace_whole_words; _replace_whole_words(case['line'], case['repl'])",
     "build": "build_CPPCodeValue(CPPCodeSpecification(**case['spec']), ast.Call(func=case['func'], args=case['args']))  (tools/c11_lib/impl.py: build)",
     "find": "cpp_ast_finder(table).visit(expr)  (tools/c11_lib/impl.py: find)",
+    "register": "dataset.MetaData(add_cpp_function ...)* -> executor.apply_ast_transformations; the method_names table it hands to cpp_ast_finder, each entry probed with function-/method-style calls of 0..6 arguments  (tools/c11_lib/impl.py: registered_table)",
     "query": "dataset.MetaData(add_cpp_function ...)*.SelectMany(e -> collection).Select(<select>) through apply_ast_transformations + write_cpp_files  (tools/c11_lib/impl.py: translate_query; ./check C11 --replay <this file>)",
 }
 
@@ -412,6 +455,8 @@ def run_impl(case: Dict[str, Any]) -> Dict[str, Any]:
     if k == "query":
         obs, lv = observe_query(case)
         return {"obs": obs, "loop_var": lv}
+    if k == "register":
+        return impl.registered_table(case["backend"], case["specs"], case["names"])
     raise ValueError(k)
 
 
@@ -432,10 +477,27 @@ def requests_for(case: Dict[str, Any], r: Dict[str, Any]) -> List[Dict[str, Any]
         if "ok" in r:
             qs.append({"op": "find", "table": case["table"], "expr": r["ok"]})  # NoPendingFull of what the code returned
         return qs
+    if k == "register":
+        obs = [[n, _driver_handler(h)] for n, h in r.get("ok", [])]
+        # `cpp_functions` lists the metadata outermost first: the specification attached LAST comes first
+        return [{"op": "register", "builtins": driver_table(case["backend"]), "specs": list(reversed(case["specs"])), "obs": obs}]
     if k == "query":
         return [query_request(case, r["obs"], r["loop_var"])] + [
             {"op": "access", "ty": a["ty"], "opr": a["op"]} for a in r["obs"].get("access", [])]
     raise ValueError(k)
+
+
+def _driver_handler(h: Any) -> Any:
+    """a probed table entry in the driver's vocabulary (an entry the probe cannot classify is passed as a specification
+    nobody declared, so that it can only equal the model's entry if the model's is unrecognisable too)"""
+    if h is None or h == "refuse":
+        return h
+    if isinstance(h, dict) and "arityonly" in h:
+        return "nonnull"
+    if isinstance(h, dict) and "spec" in h:
+        return h
+    return {"spec": {"name": "<unrecognised>", "includes": [], "args": [], "code": [json.dumps(h)], "result": "", "retType": "",
+                     "isCollection": False, "methodObject": None}}
 
 
 def judge(case: Dict[str, Any], r: Dict[str, Any], ans: List[Dict[str, Any]]) -> Tuple[Optional[str], Optional[Tuple[Any, Any]]]:
@@ -479,6 +541,18 @@ def judge(case: Dict[str, Any], r: Dict[str, Any], ans: List[Dict[str, Any]]) ->
         else:
             dis = None if r.get("err") == a.get("cls") else (a, r)
         return why, dis
+    if k == "register":
+        if "unobservable" in r:
+            return None, None
+        if "err" in r:
+            return f"declaring the functions raised {r['err']}: {r.get('msg', '')}", None
+        if a["holds"]:
+            return None, None
+        model, seen = dict((n, h) for n, h in a["model"]), dict((n, h) for n, h in r["ok"])
+        n = a["wrong"][0]
+        return (f"the callback registered under '{n}' is not built from the specification declared (last) under that name: "
+                f"probing it shows {json.dumps(seen.get(n), ensure_ascii=False)[:400]}, declared is "
+                f"{json.dumps(model.get(n), ensure_ascii=False)[:400]}"), None
     if k == "query":
         obs = r["obs"]
         if "unparsed" in obs:
@@ -517,6 +591,8 @@ def nontrivial(case: Dict[str, Any]) -> bool:
         return True
     if k == "find":
         return any(json.dumps(case["expr"]).count('"%s"' % n) for n, _ in case["table"])
+    if k == "register":
+        return len(case["specs"]) >= 1
     return sum(count_sites(c) for c in case["cols"]) >= 1
 
 
@@ -576,9 +652,22 @@ def note_distribution(ctx, c, r, a):
         ctx.count("build:" + ("accepted" if "ok" in r else r["err"]))
     elif k == "find":
         ctx.count("find:" + ("ok" if "ok" in r else r["err"]))
+    elif k == "register":
+        ctx.count("register:" + ("observed" if "ok" in r else "unobservable" if "unobservable" in r else r["err"]))
+        ctx.count("register:declared:%d" % len(c["specs"]))
+        if len({s["name"] for s in c["specs"]}) < len(c["specs"]):
+            ctx.count("register:a-name-declared-twice")
     else:
         obs = r["obs"]
         ctx.count(f"query:{c['backend']}")
+        if c.get("recv"):
+            ctx.count("query:receiver-chain:%d" % len(c["recv"]["chain"]))
+            words = set(re.findall(r"\w+", leaf_texts(c["backend"], chain_of(c))["j"]))
+            tab_ = in_force(c)
+            hit = any(words & (set(h["spec"]["args"]) | {h["spec"]["methodObject"]}) for h in tab_.values()
+                      if isinstance(h, dict) and "spec" in h and any(t.get("f") == h["spec"]["name"] and t.get("style") == "meth"
+                                                                      for col in c["cols"] for t in subtrees(col)))
+            ctx.count("query:receiver-text-contains-a-placeholder-of-the-called-method:" + ("yes" if hit else "no"))
         ctx.count("query:" + ("translated" if "err" not in obs else obs["err"]))
         ctx.count("query:sites:%d" % min(sum(count_sites(x) for x in c["cols"]), 8))
         depth = max((_depth(x) for x in c["cols"]), default=0)
@@ -636,6 +725,11 @@ def generated_cases(ctx):
     for c in corpus_cases(ID):
         if c.get("kind") not in ("builtin", "bquery"):  # those go to builtin_exec.run
             yield "corpus", c
+    # directed families (extension round): optional keys x style x arity; one query per subset of the declared functions
+    yield from gen2.optkeys_cases(rng, ["atlas", "cms_aod", "cms_miniaod"])
+    for be in (["atlas"] if quick else ["atlas", "cms_aod", "cms_miniaod"]):
+        for c in gen2.subset_cases(rng, be):
+            yield "query-subsets", c
     for c in gen.subst_exhaustive(5 if quick else 6):
         yield "subst-exhaustive", c
     for _ in range(6000 if quick else 60000):
@@ -647,6 +741,12 @@ def generated_cases(ctx):
     for _ in range(600 if quick else 7000):
         be = rng.choice(["atlas"] * 8 + ["cms_aod", "cms_miniaod"])
         yield "query", query_case(rng, be, gen_table(be))
+    for _ in range(150 if quick else 1500):  # the table apply_ast_transformations registers, entry by entry
+        be = rng.choice(["atlas"] * 4 + ["cms_aod", "cms_miniaod"])
+        yield "register", gen2.register_case(rng, be, [k for k, _ in driver_table(be)])
+    for _ in range(160 if quick else 1800):  # receivers that are lambda parameters standing for j.m1().m2()…
+        be = rng.choice(["atlas"] * 6 + ["cms_aod", "cms_miniaod"])
+        yield "query-recv", gen2.recv_query_case(rng, be)
 
 
 def run(ctx):
@@ -732,6 +832,13 @@ def shrink_candidates(c: Dict[str, Any]):
             if size >= 1:
                 for i in range(0, n, size):
                     yield {**c, "line": c["line"][:i] + c["line"][i + size:]}
+    elif k == "register":
+        for i in range(len(c["specs"])):
+            if len(c["specs"]) > 1:
+                yield {**c, "specs": c["specs"][:i] + c["specs"][i + 1:]}
+        for i, s in enumerate(c["specs"]):
+            if len(s["code"]) > 1:
+                yield {**c, "specs": c["specs"][:i] + [{**s, "code": s["code"][-1:]}] + c["specs"][i + 1:]}
     elif k == "query":
         for i in range(len(c["cols"])):
             if len(c["cols"]) > 1:
@@ -767,9 +874,15 @@ def search(ctx, broken):
     cases += [("search", gen.find_case(rng)) for _ in range(4000)]
     usable = [be for be in impl.BACKENDS if be in _LEAF_TEXT]
     if usable:
+        cases += [("search", c) for _, c in gen2.optkeys_cases(rng, usable)]
         for _ in range(1500):
             be = rng.choice(usable)
             cases.append(("search", query_case(rng, be, gen_table(be))))
+        for _ in range(500):
+            cases.append(("search", gen2.recv_query_case(rng, rng.choice(usable))))
+        for be in usable:
+            cases += [("search", c) for c in gen2.subset_cases(rng, be)]
+            cases += [("search", gen2.register_case(rng, be, [k for k, _ in driver_table(be)])) for _ in range(100)]
         for e in ctx.known_entries("fixed"):
             for c in (e["input"]["cases"] if "cases" in e["input"] else [e["input"]]):
                 cases.insert(0, ("search", c))
